@@ -109,18 +109,20 @@ type inst struct {
 	nBroadcast int
 
 	// environment-owned
-	published    int // manifests published so far
-	closed       bool
-	shutdown     bool
-	settled      bool // shutdown was requested with the system quiescent and no cluster call in flight
-	deployErrs   int
-	teardownErrs int
-	envLog       []string
-	due          []string // obligations found violated at the settled point ("[sig] message")
-	notes        []string // observations (not violations)
-	pr           probe
-	svcDone      bool
-	setupDone    bool
+	published       int // manifests published so far
+	closed          bool
+	shutdown        bool
+	settled         bool // shutdown was requested with the system quiescent and no cluster call in flight
+	deployErrs      int
+	teardownErrs    int
+	envLog          []string
+	due             []string // obligations found violated at the settled point ("[sig] message")
+	notes           []string // observations (not violations)
+	pr              probe
+	svcDone         bool
+	setupDone       bool
+	tdch            <-chan struct{} // teardownch of the lease's manager (identity only), set by the first cluster call
+	tdAcceptedAtEnd int             // teardown requests the manager had accepted at the settled point
 }
 
 func newInst(cfg *Config) *inst {
@@ -246,7 +248,10 @@ func (h *inst) begin(kind string, lid mtypes.LeaseID, version int) *call {
 	for _, a := range h.active {
 		c.activeAtStart = append(c.activeAtStart, a.id())
 	}
-	c.tdAccepted = vs.RecvCountNow(cluster.VerifC14TeardownChan(h.svc, lid))
+	if ch := cluster.VerifC14TeardownChan(h.svc, lid); ch != nil {
+		h.tdch = ch // kept: the service forgets the manager once it is done
+	}
+	c.tdAccepted = vs.RecvCountNow(h.tdch)
 	vs.Note(kind, c.seq, version, strings.Join(c.activeAtStart, ","))
 	h.calls = append(h.calls, c)
 	h.active = append(h.active, c)
@@ -472,20 +477,16 @@ func (h *inst) obligations() {
 	if len(deploys) > 0 {
 		lastDeploy = deploys[len(deploys)-1]
 	}
-	if failed {
-		// scope decision (DESIGN C14): the statement singles out failed deploys; what the manager does
-		// after one is recorded, not judged
-		var td *call
-		for _, c := range h.calls {
-			if c.kind == kTeardown && lastDeploy != nil && c.seq > lastDeploy.seq {
-				td = c
-			}
-		}
-		if td == nil {
-			h.notes = append(h.notes, "failed-deploy:no-teardown")
-		} else {
-			h.notes = append(h.notes, "failed-deploy:teardown")
-		}
+	// Had the manager accepted the teardown request (received from its teardownch)? It can only do so
+	// from inside its loop: a deploy failure handled BEFORE that makes it leave the loop, and the
+	// request is then refused (ErrNotRunning) - only those histories are exempt from the teardown
+	// clause. A request accepted before or while a deploy is in flight obliges the manager to invoke
+	// TeardownLease after that deploy finishes, ok or error.
+	h.tdAcceptedAtEnd = vs.RecvCountNow(h.tdch)
+	if failed && !(h.closed && h.tdAcceptedAtEnd > 0) {
+		// the statement's exception: the manager ended on a failed deploy before any teardown request
+		// reached it (or the lease never closed); recorded, not judged
+		h.notes = append(h.notes, "failed-deploy:no-teardown-request-accepted")
 		return
 	}
 	if h.closed {
@@ -502,8 +503,11 @@ func (h *inst) obligations() {
 		}
 		if lastDeploy != nil && len(tds) == 0 {
 			when := "after-deploy"
-			if lastDeploy.tdAccepted > 0 {
+			switch {
+			case lastDeploy.tdAccepted > 0:
 				when = "deploy-issued-after-teardown-request"
+			case lastDeploy.result == "err":
+				when = "deploy-failed-after-teardown-request"
 			}
 			due("teardown-not-invoked-after-close:"+when, "the lease closed and the system is quiescent with no cluster call in flight, but TeardownLease was never invoked after the last Deploy (%s, manifest v%d, %s)", lastDeploy.id(), lastDeploy.version, lastDeploy.result)
 		}
@@ -683,6 +687,9 @@ func (h *inst) check(r *vs.Result) (string, []string) {
 		}
 	}
 	fmt.Fprintf(&b, "]|settled=%v", h.settled)
+	if h.settled {
+		fmt.Fprintf(&b, " tdAccepted=%d", h.tdAcceptedAtEnd)
+	}
 	if h.pr.begun {
 		fmt.Fprintf(&b, "|probe{leases=%d pending=%d active=%d host=%q err=%q}", h.pr.leases, h.pr.pending, h.pr.active, h.pr.hostErr, h.pr.statusErr)
 	}
